@@ -66,7 +66,7 @@ Reach(G, nu) == ReachFix(G, [n \in NodesOf(G) |-> Succ(G, nu, n)])
 Admissible(G) ==
   LET nu == Nullable(G)
       R == Reach(G, nu)
-  IN /\ \A n \in NodesOf(G) : G[n].k \notin {"ltrim", "rtrim"}      \* trims have no denotation here (C10 has its own specification)
+  IN /\ \A n \in NodesOf(G) : G[n].k \notin {"ltrim", "rtrim", "single", "suppress"}   \* no denotation here (trims: C10; Single / SuppressError change trees / errors only)
      /\ \A n \in NodesOf(G) : \A e \in LeftEdges(G, nu, n) : e[2] => n \notin R[e[1]] /\ n # e[1]
      /\ \A n \in NodesOf(G) : G[n].k = "seq" /\ G[n].mode \in {"many", "many1"} => ~nu[G[n].kids[1]]
      /\ \A n \in NodesOf(G) : G[n].k = "seq" /\ G[n].mode \in {"sepby", "sepby1"} =>
@@ -82,7 +82,7 @@ ProdStep(G, pr) ==
      LET g == G[n] IN
      CASE g.k \in {"term", "end", "empty", "opt"} -> TRUE
        [] g.k \in {"any", "choice"} -> \E i \in 1..Len(g.kids) : pr[g.kids[i]]
-       [] g.k \in {"memo", "named", "pass"} -> pr[g.kids[1]]
+       [] g.k \in {"memo", "named", "pass", "single", "suppress", "ltrim", "rtrim"} -> pr[g.kids[1]]
        [] g.k = "seq" ->
             CASE g.mode = "of" -> \A i \in 1..Len(g.kids) : pr[g.kids[i]]
               [] g.mode \in {"try", "foa", "many1", "sepby1"} -> pr[g.kids[1]]
@@ -91,6 +91,9 @@ ProdStep(G, pr) ==
 RECURSIVE ProdFix(_, _)
 ProdFix(G, pr) == LET p2 == ProdStep(G, pr) IN IF p2 = pr THEN pr ELSE ProdFix(G, p2)
 Productive(G) == LET pr == ProdFix(G, [n \in NodesOf(G) |-> FALSE]) IN \A n \in NodesOf(G) : pr[n]
+
+\* C06's domain: productive grammars without trims (C10), SuppressError (drops errors by design) and Single
+C06Domain(G) == Productive(G) /\ \A n \in NodesOf(G) : G[n].k \notin {"ltrim", "rtrim", "single", "suppress"}
 
 \* every Any / Choice carries a Name (is the operand of a "named" node)
 AllNamed(G) == \A n \in NodesOf(G) : G[n].k \in {"any", "choice"} =>
